@@ -202,11 +202,10 @@ def run(ctx, chk, tier="quick"):
                 disp, branches = dispatch_branches(ctx)
                 br = branches.get("load")
                 if br is not None:
-                    for n in ast.walk(br):
-                        if isinstance(n, ast.Call):
-                            for kw in n.keywords:
-                                if kw.arg == a.id and isinstance(kw.value, ast.Attribute) and kw.value.attr == "timezone":
-                                    okname = True
+                    from ..cli import entry_binding
+                    bind, _c = entry_binding(ctx, disp, br, load)
+                    bv = (bind or {}).get(a.id)
+                    okname = isinstance(bv, ast.Attribute) and bv.attr == "timezone"
                 else:
                     okname = True
         chk.ob("C11.O2", okname, where_of(load, enclosing_stmt(tzarg)),
